@@ -930,7 +930,7 @@ theorem ramseyWitnessCore_opb (G : SimpleG) (k : Nat) (sb : Bool) (α : Assign) 
     (ramseyWitnessCore G k sb).toOPB.holds α = (ramseyWitnessCore G k sb).holds α :=
   Formula.toOPB_holds α _ (ramseyWitnessCore_wf G k sb)
 
-/-! ## T-C02.4, option `nontrivial` of `GraphIsomorphism` (defect D30: the option is never read) -/
+/-! ## T-C02.4, option `nontrivial` of `GraphIsomorphism` (defect D36: the option is never read) -/
 
 theorem graphIsomorphismOpt_ignores_flag (G1 G2 : SimpleG) (b : Bool) :
     graphIsomorphismOpt G1 G2 b = graphIsomorphism G1 G2 := rfl
